@@ -211,6 +211,9 @@ def handle_imagemod(self, mod_type, match):
 
 def resolve_entity(entity):
     if entity[1] == "#":
+        # int() also accepts blanks, signs and underscores: '&#x41 ;' or '&#6_5;' are no character references
+        if not re.fullmatch(r"&#(?:[xX][0-9a-fA-F]+|[0-9]+);", entity):
+            return entity
         try:
             if entity[2] == "x" or entity[2] == "X":
                 return chr(int(entity[3:-1], 16))
